@@ -66,7 +66,7 @@ fn rec<MM: Math>(math: &mut MM, s: &State<MM, TransformedPoint<MM>>) -> PointRec
     PointRec { x: x.to_vec(), gx: gx.to_vec(), y: y.to_vec(), gy: gy.to_vec(), v: v.to_vec(), logp, logdet, kinetic, energy: s.energy() }
 }
 
-pub struct StepOut { pub start: PointRec, pub fwd: Option<PointRec>, pub back: Option<PointRec>, pub params: Params, pub roundtrip_err: f64 }
+pub struct StepOut { pub start: PointRec, pub fwd: Option<PointRec>, pub back: Option<PointRec>, pub params: Params, pub roundtrip_err: f64, pub inv_logdet: f64 }
 
 struct NoColl;
 impl<MM: Math, P: Point<MM>> Collector<MM, P> for NoColl {}
@@ -101,12 +101,13 @@ pub fn run(cfg: &Cfg) -> Result<StepOut, String> {
         ham.initialize_trajectory(&mut math, &mut state, false, &mut rng).map_err(|e| format!("initialize_trajectory: {e}"))?;
         let start = rec(&mut math, &state);
         // transformation round trip through the public trait
+        let mut inv_logdet = f64::NAN;
         let roundtrip_err = {
             let t = ham.transformation();
             let mut ux = math.new_array(); math.read_from_slice(&mut ux, &start.x);
             let mut ug = math.new_array(); math.read_from_slice(&mut ug, &start.gx);
             let mut ty = math.new_array(); let mut tg = math.new_array();
-            t.inv_transform_normalize(&mut math, &ux, &ug, &mut ty, &mut tg).map_err(|_| "inv_transform_normalize".to_string())?;
+            inv_logdet = t.inv_transform_normalize(&mut math, &ux, &ug, &mut ty, &mut tg).map_err(|_| "inv_transform_normalize".to_string())?;
             let mut bx = math.new_array(); let mut bg = math.new_array(); let mut tg2 = math.new_array();
             t.init_from_transformed_position(&mut math, &mut bx, &mut bg, &ty, &mut tg2).map_err(|_| "init_from_transformed_position".to_string())?;
             let bxv = math.box_array(&bx);
@@ -119,7 +120,7 @@ pub fn run(cfg: &Cfg) -> Result<StepOut, String> {
         let back = match &fwd { Some(s) => match ham.leapfrog(&mut math, s, rdir, 1.0, e0, f64::INFINITY, &mut NoColl) { LeapfrogResult::Ok(b) => Some(b), _ => None }, None => None };
         let fr = fwd.as_ref().map(|s| rec(&mut math, s));
         let br = back.as_ref().map(|s| rec(&mut math, s));
-        Ok(StepOut { start, fwd: fr, back: br, params, roundtrip_err })
+        Ok(StepOut { start, fwd: fr, back: br, params, roundtrip_err, inv_logdet })
     }}; }
     if let Some(t) = fresh_t {
         go!(t)
@@ -167,6 +168,11 @@ pub fn oracle(cfg: &Cfg, out: &StepOut) -> Option<(String, String)> {
     let cond = 10f64.powf(2.0 * cfg.scale_range) * if cfg.lowrank { 10f64.powf(cfg.scale_range.min(3.0)) } else { 1.0 };
     let tol = 1e-11 * cond.max(1.0);
     if out.roundtrip_err > tol { return Some(("leapfrog.transform_roundtrip".into(), format!("untransformed(transformed(x)) differs from x by relative {:.3e}", out.roundtrip_err))); }
+    // the log-determinant reported by the inverse map (used when a point is re-whitened after a transformation update) is the one the forward
+    // maps report
+    if !((out.inv_logdet - out.start.logdet).abs() <= 1e-9 * (1.0 + out.start.logdet.abs()) * (n as f64 + 1.0)) {
+        return Some(("leapfrog.logdet_inverse".into(), format!("inv_transform_normalize reports log-determinant {} but the state initialised through the forward map carries {}", out.inv_logdet, out.start.logdet)));
+    }
     let (Some(f), Some(b)) = (&out.fwd, &out.back) else { return None; };
     let s = &out.start;
     // a step whose energy error is astronomically large (a divergent step: e.g. a quartic potential started 1e8 standard
